@@ -75,7 +75,49 @@ def jobs(tier):
 ''' % '62'},
                    bounded='%d time points; finite weights in [-3, 3] plus the inf() sentinel (both tiers); no registered undecided constraints (the re-propagation loop is empty)' % N))
     out.append(lit_job(tier, c))
+    out.append(resize_job(tier))
     return out
+
+
+def resize_job(tier):
+    """idl_theory::resize (matrix growth behind new_var): old entries are kept; every new pair is unconstrained (inf()), new diagonal
+    entries are 0, new predecessor entries point to the row's own time point - so the grown matrix is again the closed matrix of the
+    same constraints over more time points."""
+    N = 4
+    d = {'U_BITS': 8, 'I_BITS': 8, 'WIDE_BITS': 16, 'XT_N': N, 'XT_R': 3}
+    GH = '''static inline _Bool spr_shape(struct vec_vec_I D, struct vec_vec_U P, U_t n)
+{
+  if (D.n != n || P.n != n) return 0;
+  for (U_t i = 0; i < XT_N; i++) if (i < n && (D.e[i].n != n || P.e[i].n != n)) return 0;
+  return 1;
+}
+static inline _Bool spr_grown(struct vec_vec_I D0, struct vec_vec_U P0, U_t n0, struct vec_vec_I D1, struct vec_vec_U P1, U_t n1)
+{
+  for (U_t i = 0; i < XT_N; i++)
+    for (U_t j = 0; j < XT_N; j++)
+      if (i < n1 && j < n1)
+      {
+        if (i < n0 && j < n0) { if (D1.e[i].e[j] != D0.e[i].e[j] || P1.e[i].e[j] != P0.e[i].e[j]) return 0; }
+        else
+        {
+          if (D1.e[i].e[j] != (i == j ? 0 : XT_INF)) return 0;
+          if (P1.e[i].e[j] != (i == j ? (U_t)-1 : i)) return 0;
+        }
+      }
+  return 1;
+}
+'''
+    c = Contract(requires=['__CPROVER_is_fresh(self, sizeof(*self)) && __CPROVER_is_fresh(size, sizeof(*size))', '__exc == 0',
+                           'self->_dists.n <= *size && *size <= XT_N && spr_shape(self->_dists, self->_preds, self->_dists.n)'],
+                 ensures=[('noexcept', '__exc == 0'),
+                          ('square_of_the_requested_size', 'spr_shape(self->_dists, self->_preds, *size)'),
+                          ('old_entries_kept_new_pairs_unconstrained', 'spr_grown(%s, %s, %s, self->_dists, self->_preds, *size)' % (OLD('self->_dists'), OLD('self->_preds'), OLD('self->_dists.n'))),
+                          ('WITNESS_growth_from_a_non_empty_matrix_is_reachable', '!(%s >= 1 && *size > %s)' % (OLD('self->_dists.n'), OLD('self->_dists.n')))],
+                 assigns='__exc, self->_dists, self->_preds')
+    return Job('idl.resize', 'smt_idl_theory_resize__U', tus=TUS, contract=c, defines=d, unwind=N + 2, model_unwind=N + 3, spec_headers=['dl_apsp_spec.h'], ghost=GH, exceptions=True,
+               caps={'vec_vec_I': N, 'vec_I': N, 'vec_vec_U': N, 'vec_U': N}, abstract_fields={'smt::sat_core': [], 'smt::theory': ['sat'], 'smt::idl_theory': ['n_vars', '_dists', '_preds']},
+               timeout=2400, mem_gb=16, mem_est=4, solver='cadical', force_types=['std::vector<std::vector<long>>', 'std::vector<std::vector<unsigned long>>'],
+               bounded='matrices of up to %d x %d (old size 0..%d, new size up to %d)' % (N, N, N, N))
 
 
 def lit_job(tier, c_edge):
@@ -178,4 +220,4 @@ LIT_REPLAY = '''  const int n = XT_N; sat_core sat; long xinf = 62;
 
 
 # what the evidence file says is NOT decided by this module, and what it assumes
-INFO = {'not_under_contract': ['rdl_theory', 'idl_theory::new_var (matrix growth), check(), the re-propagation of registered undecided constraints after an edge step', 'pop (covered under C08)'], 'assumptions': ['predecessor walks terminate (acyclic predecessor rows): precondition of the propagate(const lit&) job', 'link invariant (every ghost edge is the enforced constraint of its pair) holds initially: it is kept by propagate(const lit&), restored with the snapshot by pop']}
+INFO = {'not_under_contract': ['rdl_theory', 'idl_theory::check(), the re-propagation of registered undecided constraints after an edge step', 'pop (covered under C08)'], 'assumptions': ['predecessor walks terminate (acyclic predecessor rows): precondition of the propagate(const lit&) job', 'link invariant (every ghost edge is the enforced constraint of its pair) holds initially: it is kept by propagate(const lit&), restored with the snapshot by pop']}
